@@ -776,20 +776,21 @@ def ref_expected(case, tables, real, row, cdir):
                 st, val = multi_result(real, row, v, raw)     # CLI-only options: the parser's own type function
                 levels.append(ref.Setting('const', value=val) if st == 'ok' else ref.Setting('reject'))
             else:
-                kind = ref.KIND_OF_TY.get(v['ty'])
+                kind = 'literal' if row['scope'] == 2 else ref.DOCUMENTED_FLAG_KIND.get(v['flag'], ref.KIND_OF_TY.get(v['ty']))
                 if kind is None:          # CLI-only type functions (rate limit, column list): the real function
                     st, val = real.call(v['ty'], row['owner'], raw)
                     levels.append(ref.Setting('const', value=val) if st == 'ok' else ref.Setting('reject'))
                 else:
                     levels.append(ref.Setting(kind, raw))
         elif src == 'env':
-            levels.append(ref.Setting(ref.KIND_OF_TY[row['env']['ty']], raw))
+            name = ref.env_name(row['owner'], row['dest'])
+            levels.append(ref.Setting('literal' if row['scope'] == 2 else ref.DOCUMENTED_ENV_KIND.get(name, ref.KIND_OF_TY.get(row['env']['ty'], 'text')), raw))
         else:
             fv = row['file'][vi]
-            if fv['kind'] == 'nullIfTrue':
-                levels.append(ref.Setting('null-if-true', raw))
-            else:
-                levels.append(ref.Setting(ref.KIND_OF_TY[fv['ty']], raw))
+            kind = 'literal' if row['scope'] == 2 else ref.DOCUMENTED_KEY_KIND.get(fv['key'])
+            if kind is None:
+                kind = 'null-if-true' if fv['kind'] == 'nullIfTrue' else ref.KIND_OF_TY.get(fv['ty'], 'text')
+            levels.append(ref.Setting(kind, raw))
     b = builtin_tv(case, tables, row, cdir)
     sentinel = object()
     try:
